@@ -193,6 +193,12 @@ class DatasetSpec(object):
                     with open(d / fn, 'wb') as f:
                         f.write(b'\x5a' * self.raw_offset)
                         f.write(np.ascontiguousarray(self.raw[i:i + p]).tobytes())
+                    if self.notes.get('raw_symlink'):
+                        # the raw data lives elsewhere; the dataset folder only links to it
+                        import os
+                        (d / '_store').mkdir(exist_ok=True)
+                        os.replace(d / fn, d / '_store' / fn)
+                        os.symlink(d / '_store' / fn, d / fn)
                     i += p
                     dat_paths.append(fn)
         for fn, text in self.tsv.items():
